@@ -15,3 +15,17 @@ package preparedmessages
 //@   ensures [prepares-for-the-proposal-hash] result != nil ==> result.PrepareMessages == PMsgs(storage, pver, blockHeight, latestPreparedView, result.PreprepareMessage.content.SignedHeader().BlockHash())
 //@   ensures [prepared-quorum] result != nil ==> len(senderIds) == len(PIds(storage, pver, blockHeight, latestPreparedView, result.PreprepareMessage.content.SignedHeader().BlockHash())) + 1
 //@     | && SW(senderIds, committeeMembers, len(committeeMembers)) >= Qz(SumMW(committeeMembers, len(committeeMembers)))
+//@   ensures [prepared-quorum.for-every-list-of-those-senders] result != nil ==> (forall qids []primitives.MemberId :: len(qids) == len(PIds(storage, pver, blockHeight, latestPreparedView, result.PreprepareMessage.content.SignedHeader().BlockHash())) + 1
+//@     | && (forall qk :: 0 <= qk && qk < len(qids) - 1 ==> qids[qk] == PIds(storage, pver, blockHeight, latestPreparedView, result.PreprepareMessage.content.SignedHeader().BlockHash())[qk])
+//@     | && qids[len(qids) - 1] == result.PreprepareMessage.content.Sender().MemberId()
+//@     | ==> SW(qids, committeeMembers, len(committeeMembers)) >= Qz(SumMW(committeeMembers, len(committeeMembers))))
+// A-STORE, assumed where a term calls this (the caller's receiver is the term): what the log returns satisfied the store
+// preconditions - the proposal is an accepted one, every PREPARE is authentic, canonical, of this instance, from a member
+// other than the leader, for exactly the queried (height, view, hash), and the i-th message is from the i-th listed sender;
+// listed senders are pairwise distinct (one entry per sender id)
+//@   assume [A-STORE.the-certificate-returned-is-made-of-accepted-messages] result != nil ==> ProposalOK(caller, result.PreprepareMessage) && result.PreprepareMessage.block != nil
+//@     | && (forall ai int :: 0 <= ai && ai < len(result.PrepareMessages) ==> PrepareOK(caller, result.PrepareMessages[ai])
+//@     |      && result.PrepareMessages[ai].content.SignedHeader().BlockHeight() == blockHeight && result.PrepareMessages[ai].content.SignedHeader().View() == latestPreparedView
+//@     |      && result.PrepareMessages[ai].content.SignedHeader().BlockHash() == result.PreprepareMessage.content.SignedHeader().BlockHash()
+//@     |      && result.PrepareMessages[ai].content.Sender().MemberId() == PIds(storage, pver, blockHeight, latestPreparedView, result.PreprepareMessage.content.SignedHeader().BlockHash())[ai])
+//@     | && (forall aj int, ak int :: 0 <= aj && aj < ak && ak < len(result.PrepareMessages) ==> result.PrepareMessages[aj].content.Sender().MemberId() != result.PrepareMessages[ak].content.Sender().MemberId())
